@@ -1,5 +1,180 @@
 import Ecal.Drivers.Util
+import Ecal.Drivers.EvalCommon
+import Ecal.Model.Prims
+/-!
+Model side of C06 (payload formats: see go/cmd/harness/c06.go).
+
+The outcome CLASS of a program (`OK | ERR <type> | ERRPLAIN | NOPARSE | V ERR <type>` + marker log)
+comes from the shared evaluator model (`Ecal.Ev`, through `EvalCommon.runProgram`); where that model
+does not cover a builtin call (`UNSUP`), the argument-check model of `Ecal/Model/Prims.lean` decides
+value-vs-error. The outcome inside `try { … } except { x.mark(1) }` and inside a sink is DERIVED from
+the class of the plain program — that derivation is the property: an error is catchable
+(`error_in_try_catchable`), inside a sink it fails only that invocation. The model never predicts
+PANIC / CRASH / HANG except on the known finding (a cyclic container reaches fmt.Sprint).
+-/
 namespace Ecal.Drv.C06
-/-- model driver of property C06 (stub: not implemented yet) -/
-def run (_args : List String) : IO Unit := Ecal.Drv.lineLoop fun _ => "unimplemented"
+open Ecal.Drv Ecal.Ev Ecal.Drv.EvalCommon
+
+inductive Cls where
+  | ok | err (tyHex : String) | errplain | noparse | verr (tyHex : String) | vother
+  | unsup (why : String) | hang | panic
+
+def tyHex (e : RtErr) : String := hexEnc (strBytes e.type)
+
+def sigCls : Sig → Cls
+  | .err e _ => .err (tyHex e) | .ret e _ => .err (tyHex e) | .iter e _ => .err (tyHex e)
+  | .plainErr _ => .errplain | .panic => .panic | .fuel => .hang | .unsupported w => .unsup w
+
+def classify : Result → Cls × String
+  | .noparse => (.noparse, "")
+  | .invalid e => (match sigCls e with | .err t => .verr t | .unsup w => .unsup w | _ => .vother, "")
+  | .done r st =>
+    let log := logText st
+    if log.contains '?' then (.unsup "log shows a value the model does not know", "") else
+    match r with
+    | .ok _ => (.ok, log)
+    | .error e => (sigCls e, log)
+
+/-! univ of the property (same order as `c06Universe` in c06.go) -/
+open Ecal.Prims in
+def univ : List PVal :=
+  let minInt : Int := -9223372036854775808
+  [.null, .bool true, .num 0 1, .num (-1) 0, .num 1 2, .num minInt minInt, .str "" none, .str "a" none,
+   .str "1" (some (1, 2)), .list [], .list [.num 1 2], .map [], .map [(.str "a" none, .num 1 2)], .func 0]
+
+/-- printed form (fmt.Sprint) of a univ value where it is known: the error type of `raise(v)` -/
+def univText : List (Option String) :=
+  [some "<nil>", some "true", some "0", some "-1", some "1.5", some "1e+300", some "", some "a", some "1",
+   some "[]", some "[1]", some "map[]", some "map[a:1]", none]
+
+def runtimeErrHex : String := hexEnc (strBytes "Runtime error")
+
+/-- class of a builtin call by the Prims model (builtin errors are plain Go errors: the call site
+    wraps them into a "Runtime error"; `range` signals "Function is an iterator") -/
+def primsClass (name : String) (ix : List Nat) : Option Cls :=
+  let args := ix.map fun i => univ.getD i .null
+  match Ecal.Prims.builtin (fun _ => .ok ()) name args with
+  | none => none
+  | some r =>
+    if name == "raise" then
+      match ix with
+      | [] => some (.err runtimeErrHex)
+      | i :: _ => match univText.getD i none with
+        | some t => some (.err (hexEnc (strBytes t)))
+        | none => none
+    else match r with
+      | .ok _ => some .ok
+      | .error (.err _) => some (.err runtimeErrHex)
+      | .error .iter => some (.err (hexEnc (strBytes tIsIter)))
+      | .error (.panic _) => some .panic
+
+def clsText : Cls → String
+  | .ok => "OK" | .err t => "ERR " ++ t | .errplain => "ERRPLAIN" | .noparse => "NOPARSE" | .verr t => "V ERR " ++ t
+  | .vother => "V" | .unsup w => "UNSUP " ++ w | .hang => "HANG" | .panic => "PANIC"
+
+def mark (n : Nat) : String := "m" ++ canonVal {} canonDepth (.num (Float.ofNat n))
+
+def joinLog (a b : String) : String := if a.isEmpty then b else if b.isEmpty then a else a ++ "|" ++ b
+
+def isErr : Cls → Bool
+  | .err _ => true | .errplain => true | _ => false
+
+/-- break / continue / return signals: try hands them through (they are not errors) -/
+def isControlCls : Cls → Bool
+  | .err t => t == hexEnc (strBytes tBreak) || t == hexEnc (strBytes tContinue) || t == hexEnc (strBytes tReturn)
+  | _ => false
+
+/-- what the three modes must show, from the class of the plain program -/
+def modeResult (mode : String) (c : Cls) (log : String) : String :=
+  match c with
+  | .unsup w => "UNSUP " ++ w
+  | .hang => "HANG" | .panic => "PANIC"
+  | .noparse => if mode == "s" then "SINKFAIL NOPARSE" else "NOPARSE"
+  | .verr t => if mode == "s" then "SINKFAIL V ERR " ++ t else "V ERR " ++ t
+  | .vother => "UNSUP validation outcome"
+  | c =>
+    if mode == "p" then clsText c ++ " LOG " ++ log
+    else if mode == "t" then
+      -- an error is caught by the bare except clause (its marker shows), the program ends normally
+      if isControlCls c then clsText c ++ " LOG " ++ log
+      else "OK LOG " ++ (if isErr c then joinLog log (mark 1) else log)
+    else
+      -- inside a sink: one failed invocation reported for the first event, the second event is processed normally
+      s!"SINK {if isErr c then 1 else 0} 0 LOG {joinLog log (mark 2)}"
+
+def sinkAttrClass (attr : String) (i : Nat) : String :=
+  open Ecal.Prims in
+  let v := univ.getD i .null
+  let want : Kind := if attr == "statematch" then .map else if attr == "priority" then .num else .list
+  let invalidConstruct := "ERR " ++ hexEnc (strBytes "Invalid construct")
+  let invalidState := "ERR " ++ hexEnc (strBytes "Invalid state")
+  match sinkAttrSite want v with
+  | .error (.panic _) => "PANIC"
+  | .error _ => invalidConstruct
+  | .ok v =>
+    -- engine.AddRule refuses a rule without kind match / scope match (an empty ECAL list gives a nil Go slice)
+    match attr, v with
+    | "kindmatch", .list [] => invalidState
+    | "scopematch", .list [] => invalidState
+    | _, _ => "OK"
+
+def eventClass (i j : Nat) : String :=
+  -- statematch {"a": U_i} against state {"a": U_j}: null matches any value, otherwise equal values
+  let fired := i == 0 || i == j
+  "OK LOG " ++ (if fired then mark 1 else "")
+
+/-- does `v` reach a container that is already on the path to it? (list identity = backing array) -/
+partial def cyclicFrom (st : St) (path : List (Bool × Nat)) (v : Val) : Bool :=
+  match v with
+  | .list r _ =>
+    if path.contains (true, r) then true else (st.lists.getD r []).any (cyclicFrom st ((true, r) :: path))
+  | .map r =>
+    if path.contains (false, r) then true else (st.maps.getD r []).any fun p => cyclicFrom st ((false, r) :: path) p.2
+  | _ => false
+
+/-- the heap the program left holds a container that contains itself -/
+def heapCyclic : Result → Bool
+  | .done _ st =>
+    (List.range st.lists.size).any (fun r => cyclicFrom st [] (.list r 0)) ||
+    (List.range st.maps.size).any (fun r => cyclicFrom st [] (.map r))
+  | _ => false
+
+def hasCycleKf (label : String) : Bool := label == "cyclic"
+
+def runCase (payload : String) : String :=
+  match payload.splitOn " " with
+  | "X" :: mode :: label :: metaS :: rest =>
+    match decodePayload (" ".intercalate rest) with
+    | none => "bad-payload"
+    | some prog =>
+      let res := runProgram prog
+      let (c, log) := classify res
+      let outside := match c with | .unsup _ => true | .hang => true | _ => false
+      if label == "random" && heapCyclic res && outside then
+        "UNSUP a container that contains itself, outcome outside the model"
+      else if label == "random" && heapCyclic res then
+        -- the program built a container that contains itself: if it also stringifies it the real code
+        -- dies (known finding), otherwise it behaves as the model says
+        "CRASH\tkf=cyclic-container-stringify\tspec=" ++ modeResult mode c log ++ "\tnt=1"
+      else if label == "cyclic" then
+        -- known finding: the real code overflows the stack; the property demands an error value
+        "CRASH\tkf=cyclic-container-stringify\tspec=ERR\tnt=1"
+      else
+        let c : Cls := match c with
+          | .unsup w =>
+            match metaS.splitOn ":" with
+            | [name, ixs] =>
+              let ix := if ixs == "-" then [] else (ixs.splitOn ",").map String.toNat!
+              match primsClass name ix with
+              | some c' => c'
+              | none => .unsup w
+            | _ => .unsup w
+          | c => c
+        let nt := match c with | .err _ => "\tnt=1" | .errplain => "\tnt=1" | _ => ""
+        modeResult mode c log ++ nt
+  | ["A", attr, i] => sinkAttrClass attr i.toNat! ++ "\tnt=1"
+  | ["E", i, j] => eventClass i.toNat! j.toNat! ++ "\tnt=1"
+  | _ => "bad-payload"
+
+def run (_args : List String) : IO Unit := lineLoop runCase
 end Ecal.Drv.C06
